@@ -127,6 +127,13 @@ def directed_histories(geom):
                 {"op": "remove", "arg": [1]}, {"op": "read", "arg": []}, {"op": "remove", "arg": [0]}, {"op": "read", "arg": []}])
     out.append([{"op": "add_clusters", "arg": inside[:2]}, {"op": "read", "arg": []}, {"op": "read", "arg": []},
                 {"op": "remove", "arg": [1]}, {"op": "read", "arg": []}, {"op": "reset", "arg": []}, {"op": "read", "arg": []}])
+    # the same array OBJECT added again (harness.charge keeps one object per value list): a pattern P that a caller
+    # keeps and adds at every step, with other additions, reads and resets in between
+    P = [(k % 3) + 1 for k in range(r * c)]
+    Q = [5 if k % 2 else 0 for k in range(r * c)]
+    A, B, RD, RS = {"op": "add_array", "arg": P}, {"op": "add_array", "arg": Q}, {"op": "read", "arg": []}, {"op": "reset", "arg": []}
+    out += [[A, B, A, RD], [A, A, A, RD], [A, B, RS, A, RD], [A, RD, B, RD, A, RD], [B, A, B, RD, RS, B, A, RD],
+            [A, {"op": "add_clusters", "arg": inside[:2]}, A, RD, RS, A, B, A, RD]]
     return out
 
 
